@@ -718,3 +718,93 @@ def _enclosing(node, fn):
 
 def _in_list(node, lst):
     return any(node is x for x in lst)
+
+
+# ---------------------------------------------------------------------------
+# partial evaluation of a test for a given binding of sub-expressions to constants
+# ---------------------------------------------------------------------------
+
+class Unknown(Exception):
+    pass
+
+
+def eval_test(expr, bindings, fold=None):
+    """Evaluate ``expr`` where every sub-expression whose canonical text is a key of ``bindings`` has that constant value.
+    ``fold(e)`` may fold other constant expressions (class constants ...). Only total, side-effect free operators are
+    interpreted: comparisons, boolean operators, not, len(), str methods lower/upper/strip, isinstance(x, str/int/...).
+    Raises Unknown for anything else."""
+    key = ' '.join(ast.unparse(expr).split())
+    if key in bindings:
+        return bindings[key]
+    ev = lambda e: eval_test(e, bindings, fold)
+    if isinstance(expr, ast.Constant):
+        return expr.value
+    if isinstance(expr, ast.BoolOp):
+        if isinstance(expr.op, ast.And):
+            r = True
+            for v in expr.values:
+                r = ev(v)
+                if not r:
+                    return r
+            return r
+        r = False
+        for v in expr.values:
+            r = ev(v)
+            if r:
+                return r
+        return r
+    if isinstance(expr, ast.UnaryOp) and isinstance(expr.op, ast.Not):
+        return not ev(expr.operand)
+    if isinstance(expr, ast.Compare):
+        left = ev(expr.left)
+        for op, c in zip(expr.ops, expr.comparators):
+            right = ev(c)
+            try:
+                if isinstance(op, ast.Is):
+                    ok = left is right
+                elif isinstance(op, ast.IsNot):
+                    ok = left is not right
+                elif isinstance(op, ast.Eq):
+                    ok = left == right
+                elif isinstance(op, ast.NotEq):
+                    ok = left != right
+                elif isinstance(op, ast.Lt):
+                    ok = left < right
+                elif isinstance(op, ast.LtE):
+                    ok = left <= right
+                elif isinstance(op, ast.Gt):
+                    ok = left > right
+                elif isinstance(op, ast.GtE):
+                    ok = left >= right
+                elif isinstance(op, ast.In):
+                    ok = left in right
+                elif isinstance(op, ast.NotIn):
+                    ok = left not in right
+                else:
+                    raise Unknown(ast.dump(op))
+            except TypeError:
+                raise Unknown('type error in comparison')
+            if not ok:
+                return False
+            left = right
+        return True
+    if isinstance(expr, ast.Call):
+        if isinstance(expr.func, ast.Name) and expr.func.id == 'len' and len(expr.args) == 1:
+            v = ev(expr.args[0])
+            try:
+                return len(v)
+            except TypeError:
+                raise Unknown('len of non-sized')
+        if isinstance(expr.func, ast.Name) and expr.func.id == 'isinstance' and len(expr.args) == 2 and \
+                isinstance(expr.args[1], ast.Name) and expr.args[1].id in ('str', 'int', 'float', 'list', 'dict', 'bool'):
+            return isinstance(ev(expr.args[0]), {'str': str, 'int': int, 'float': float, 'list': list, 'dict': dict, 'bool': bool}[expr.args[1].id])
+        if isinstance(expr.func, ast.Attribute) and expr.func.attr in ('lower', 'upper', 'strip') and not expr.args:
+            v = ev(expr.func.value)
+            if isinstance(v, str):
+                return getattr(v, expr.func.attr)()
+    if fold is not None:
+        try:
+            return fold(expr)
+        except Exception:
+            pass
+    raise Unknown(key)
